@@ -217,7 +217,19 @@ def run_replay(pid: str, path: str) -> int:
     os.environ['VERIF_SEED'] = str(v.get('seed', 0))
     import_kfac()
     res = Result()
-    mod.replay(v['case'], res)
+    if isinstance(v['case'], dict) and 'shard_spec' in v['case']:
+        # an exception escaped a whole shard: replay = run that shard again
+        import traceback
+        from kverif.common import REPO
+        try:
+            mod.run_shard(v['case']['shard_spec'], res)
+        except BaseException:
+            tb = traceback.format_exc()
+            if (REPO.rstrip('/') + '/kfac/') not in tb:
+                raise
+            res.violation('a valid use raised inside kfac (not classified by the check): ' + tb.strip().splitlines()[-1][:300], v['case'])
+    else:
+        mod.replay(v['case'], res)
     for x in res.violations:
         print('VIOLATION property=%s replay=%s' % (pid, path))
         print('  what: ' + x['what'][:2000])
